@@ -91,6 +91,8 @@ pub fn check(tier: Tier) -> Check {
     // two losses in a row: the session is resumed on a second and then on a third connection
     parts.push(Part::new("C17/resume", json!({"depth": tier.pick(4, 5), "expiry": 1000, "secs_ago": 10, "twice": true}), 0, tier.pick(15, 300)));
     parts.push(Part::new("C17/resume", json!({"depth": tier.pick(4, 5), "expiry": 1000, "secs_ago": 10, "twice": true, "r": 65535}), 0, tier.pick(15, 300)));
+    // ... with delayed and abandoned publish futures in the history (deviations)
+    parts.push(Part::new("C17/resume", json!({"depth": tier.pick(3, 4), "expiry": 1000, "secs_ago": 10, "twice": true, "sched": true}), tier.pick(1, 2), tier.pick(15, 300)));
     // identifier flavour: the counters start next to a boundary of their encodings (DESIGN 4)
     for ids in [[65534u64, 1u64], [255, 127]] {
         parts.push(Part::new(
